@@ -262,9 +262,19 @@ impl Ep {
             }
             "est" => {
                 self.establish().await?;
-                // leave something genuine pending for A: one more user message
-                self.b.sctp.send_data(1, b"pending user message").await.map_err(|e| e.to_string())?;
-                self.collect().await;
+                if depth % 2 == 1 {
+                    // a message of three fragments is on its way; A's SCTP has the first fragment only
+                    self.b.sctp.send_data(1, &vec![0x42u8; 3000]).await.map_err(|e| e.to_string())?;
+                    self.collect().await;
+                    if let Some(first) = self.held.pop_front() {
+                        let _ = self.inject.send(Bytes::from(first));
+                        self.poll_all().await;
+                    }
+                } else {
+                    // leave something genuine pending for A: one more user message
+                    self.b.sctp.send_data(1, b"pending user message").await.map_err(|e| e.to_string())?;
+                    self.collect().await;
+                }
                 self.phase = "est";
             }
             "closing" => {
